@@ -1,0 +1,29 @@
+//go:build verif
+
+package index
+
+import "perkeep.org/pkg/blob"
+
+// VerifAwaitAsyncIndexing waits until the asynchronous out-of-order
+// (re)indexing goroutines started so far have finished.
+func (x *Index) VerifAwaitAsyncIndexing() { x.reindexWg.Wait() }
+
+// VerifOutOfOrderState returns copies of the in-memory out-of-order
+// indexing bookkeeping: needs, neededBy and the ready-to-reindex set.
+func (x *Index) VerifOutOfOrderState() (needs, neededBy map[string][]string, ready []string) {
+	x.RLock()
+	defer x.RUnlock()
+	cp := func(m map[blob.Ref][]blob.Ref) map[string][]string {
+		out := make(map[string][]string, len(m))
+		for k, v := range m {
+			for _, b := range v {
+				out[k.String()] = append(out[k.String()], b.String())
+			}
+		}
+		return out
+	}
+	for br := range x.readyReindex {
+		ready = append(ready, br.String())
+	}
+	return cp(x.needs), cp(x.neededBy), ready
+}
